@@ -1517,7 +1517,7 @@ def _thread_known_variants(f):
         jb = blocks[J]
         # skip over trivial forwarding blocks
         hops = 0
-        while not jb["st"] and jb["term"]["t"] in ("goto", "falseedge") and hops < 6:
+        while not jb["st"] and jb["term"]["t"] in ("goto", "falseedge", "drop") and jb["term"].get("to") is not None and hops < 6:
             J = jb["term"]["to"]
             jb = blocks[J]
             hops += 1
